@@ -425,3 +425,82 @@ Definition cors_unrepaired (wl : list bytes) (hdr : bytes) : option bytes :=
 (* the header the client sees: the handler runs only when the mux passes *)
 Definition acao_at (m : muxd) (wl : list bytes) (hdr : bytes) : option bytes :=
   match m with MuxPass => cors wl hdr | _ => None end.
+
+(* ------------------------------------------------------------------ the whole request *)
+
+(* A request is more than its target: a method and header lines (name, value),
+   in the order sent.  The handler reads exactly one thing of them,
+   req.Header.Get("Origin"); http.FileServer reads the method (HEAD: no body)
+   and the conditional / Range headers (outside the model).  net/textproto
+   canonicalises header names, so names compare case-insensitively in ASCII. *)
+Definition lower_ascii (a : ascii) : ascii :=
+  let n := N_of_ascii a in
+  if (N.leb 65 n && N.leb n 90)%bool then ascii_of_N (n + 32) else a.
+
+Definition name_eqb (a b : bytes) : bool := beqb (map lower_ascii a) (map lower_ascii b).
+
+(* Header.Get(name): the value of the first line of that name, "" when there is none *)
+Fixpoint header_get (name : bytes) (hs : list (bytes * bytes)) : bytes :=
+  match hs with
+  | [] => []
+  | h :: r => if name_eqb (fst h) name then snd h else header_get name r
+  end.
+
+(* Header.Values(name) *)
+Definition header_values (name : bytes) (hs : list (bytes * bytes)) : list bytes :=
+  map snd (filter (fun h => name_eqb (fst h) name) hs).
+
+Definition h_origin : bytes := B "Origin".
+Definition acao_name : bytes := B "Access-Control-Allow-Origin".
+Definition m_head : bytes := B "HEAD".
+
+(* M: ALL Access-Control-* headers of the response, (name, values).  The
+   method and every header other than the first Origin line are not looked at:
+   no branch of assetHandler mentions them (in particular a preflight, OPTIONS
+   with Access-Control-Request-Method, is answered like any other request). *)
+Definition resp_ac (m : muxd) (wl : list bytes) (meth : bytes) (hs : list (bytes * bytes))
+  : list (bytes * list bytes) :=
+  match acao_at m wl (header_get h_origin hs) with
+  | None => []
+  | Some v => [(acao_name, [v])]
+  end.
+
+(* M: the body that is sent for an answer: serveContent writes none for HEAD *)
+Definition sent_body (meth : bytes) (a : answer) : option bytes :=
+  match a with
+  | File b => Some (if beqb meth m_head then [] else b)
+  | _ => None
+  end.
+
+(* S: what the property allows among the Access-Control-* response headers,
+   given the whitelist and the values of the request's Origin lines: an
+   Access-Control-Allow-Origin header has exactly one value, that value is an
+   Origin of the request, and it is whitelisted; any other Access-Control-*
+   header (a grant of methods, headers, credentials, a max-age) is present
+   only for a request that has a whitelisted Origin. *)
+Definition allowedb (wl : list bytes) (o : bytes) : bool :=
+  nonemptyb o && (mem o wl || mem (B "*") wl).
+
+Definition is_ac_name (n : bytes) : bool := prefixb (B "access-control-") (map lower_ascii n).
+
+Definition ac_spec (wl : list bytes) (origins : list bytes) (acs : list (bytes * list bytes)) : bool :=
+  forallb (fun h => if name_eqb (fst h) acao_name
+                    then match snd h with
+                         | [v] => mem v origins && allowedb wl v
+                         | _ => false
+                         end
+                    else existsb (allowedb wl) origins) acs.
+
+(* a plausible but wrong extension (the class of seeded change C19-f): a
+   preflight is answered by the handler itself, and the branch that does so
+   writes the Origin with Header().Set without asking the whitelist again *)
+Definition resp_ac_preflight (m : muxd) (wl : list bytes) (meth : bytes) (hs : list (bytes * bytes))
+  : list (bytes * list bytes) :=
+  match m with
+  | MuxPass =>
+      if beqb meth (B "OPTIONS") && nonemptyb (header_get (B "Access-Control-Request-Method") hs)
+      then [(B "Access-Control-Allow-Methods", [B "GET, HEAD, OPTIONS"]);
+            (acao_name, [header_get h_origin hs]); (B "Access-Control-Max-Age", [B "86400"])]
+      else resp_ac m wl meth hs
+  | _ => []
+  end.
